@@ -142,9 +142,8 @@ func (vm *Vm) Run(ctx context.Context, b []byte) ([]byte, error) {
 		waitChange := vm.st.ResetFlag(state.FLAG_WAIT)
 		if waitChange {
 			vm.st.ResetFlag(state.FLAG_INMATCH)
-			vm.pg.Reset()
+			vm.Reset()
 			vm.pg.WithError(nil)
-			vm.mn.Reset()
 		}
 
 		_ = vm.st.SetFlag(state.FLAG_DIRTY)
